@@ -100,7 +100,7 @@ def register(R, tier="quick"):
             return {"self": Obj(I.repo.klass(S, cls), f), "m": LeafView(I, dfl)}
         return setup
     H = "s = self.score(m)\nbq = self.block_quality(m)\n"
-    R.contract(S + ":BM25FScorer._score", label="scoring/BM25FScorer-block-bound", props=["C12"],
+    R.contract(S + ":BM25FScorer._score", label="scoring/BM25FScorer-block-bound", props=["C12", "C05"],
                setup=mk_scorer("BM25FScorer", {"idf": "real", "avgfl": "real", "B": "real", "K1": "real", "qf": 1}),
                requires=["self.idf > 0", "self.avgfl > 0", "0 <= self.B <= 1", "self.K1 >= 0"],
                harness=H, ensures=["s <= bq", "s >= 0"],
@@ -108,11 +108,11 @@ def register(R, tier="quick"):
                                 "bm25(self.idf, length, weight, self.avgfl, self.B, self.K1)")],
                note="BM25F: block_quality() = _score(block max weight, block min length) >= score of every entry "
                     "whose weight/length the block statistics bound")
-    R.contract(S + ":TF_IDFScorer.score", label="scoring/TF_IDFScorer-block-bound", props=["C12"],
+    R.contract(S + ":TF_IDFScorer.score", label="scoring/TF_IDFScorer-block-bound", props=["C12", "C05"],
                setup=mk_scorer("TF_IDFScorer", {"idf": "real", "_maxquality": "real"}),
                requires=["self.idf > 0"], harness=H, ensures=["s <= bq", "s >= 0"],
                canaries=[Canary("score-doubled", "return matcher.weight() * self.idf", "return matcher.weight() * self.idf * 2")])
-    R.contract(S + ":WeightScorer.score", label="scoring/WeightScorer-block-bound", props=["C12"],
+    R.contract(S + ":WeightScorer.score", label="scoring/WeightScorer-block-bound", props=["C12", "C05"],
                setup=mk_scorer("WeightScorer", {"_maxweight": "real"}),
                harness=H, ensures=["s <= bq", "s >= 0"])
 
@@ -120,18 +120,18 @@ def register(R, tier="quick"):
         dfl = UFun(I, "dfl")
         sub = Obj(I.repo.klass(S, "TF_IDFScorer"), {"idf": z3.Real("idf"), "_maxquality": z3.Real("mq")})
         return {"self": Obj(I.repo.klass(S, "ReverseWeighting.ReverseScorer"), {"subscorer": sub}), "m": LeafView(I, dfl)}
-    R.contract(S + ":ReverseWeighting.ReverseScorer.score", label="scoring/ReverseScorer-block-bound", props=["C12"],
+    R.contract(S + ":ReverseWeighting.ReverseScorer.score", label="scoring/ReverseScorer-block-bound", props=["C12", "C05"],
                setup=mk_rev, requires=["self.subscorer.idf > 0"], harness=H, ensures=["s <= bq"],
                note="known finding: the negated bound of the wrapped scorer is a LOWER bound")
 
     register_stats(R)
-    R.contract(S + ":PL2Scorer._score", label="scoring/PL2Scorer-block-bound", props=["C12"],
+    R.contract(S + ":PL2Scorer._score", label="scoring/PL2Scorer-block-bound", props=["C12", "C05"],
                setup=mk_scorer("PL2Scorer", {"cf": "real", "dc": "real", "avgfl": "real", "c": "real", "qf": 1}),
                requires=["self.cf > 0", "self.dc >= 1", "self.avgfl > 0", "self.c > 0", "self.cf <= self.dc * 1000"],
                harness=H, ensures=["s <= bq"], timeout_ms=3000,
                note="known finding: PL2 is not monotone in (weight, length); log is uninterpreted, so the solver's "
                     "counter-model is not trusted by itself - the native witness is")
-    R.contract(S + ":DFreeScorer._score", label="scoring/DFreeScorer-block-bound", props=["C12"],
+    R.contract(S + ":DFreeScorer._score", label="scoring/DFreeScorer-block-bound", props=["C12", "C05"],
                setup=mk_scorer("DFreeScorer", {"cf": "real", "fl": "real", "qf": 1}),
                requires=["self.cf > 0", "self.fl >= self.cf"],
                harness=H, ensures=["s <= bq"], timeout_ms=3000,
